@@ -1264,3 +1264,559 @@ func hrRunOnRequestUpdates(w *World, r *Report, rule string) {
 	ok := len(en) == 1 && len(pr) == 1 && domInstr(en[0], pr[0]) && en[0].Block() == pr[0].Block()
 	r.Check(ok, rule, "runOnRequest/each-action-applied-to-the-message", f.Pos(), "inside the loop over the remedies the returned action is applied with EnsureRequestIsUpdated(&args) before it is folded (a later remedy sees the headers an earlier one set)")
 }
+
+// ---------------------------------------------------------------------------
+// part 6: contracts read off helpers that wave 8 (second half) edited
+
+// hrLockOwnersUsePointerReceivers: a struct that holds a lock or a version counter by value is
+// never the value receiver of a method (the method would work on a copy: the increment, the map
+// header written under the copied mutex, are lost to every other caller).
+func hrLockOwnersUsePointerReceivers(w *World, r *Report, rule string, pkgPrefix string) {
+	var holds func(t types.Type, depth int) bool
+	holds = func(t types.Type, depth int) bool {
+		if depth > 6 {
+			return false
+		}
+		if n, isN := t.(*types.Named); isN && n.Obj().Pkg() != nil && n.Obj().Pkg().Path() == "sync" {
+			switch n.Obj().Name() {
+			case "Mutex", "RWMutex", "WaitGroup", "Once", "Cond":
+				return true
+			}
+		}
+		switch u := t.Underlying().(type) {
+		case *types.Struct:
+			for i := 0; i < u.NumFields(); i++ {
+				ft := u.Field(i).Type()
+				if p, isP := ft.(*types.Pointer); isP && depth == 0 { // a mutex the struct owns through a pointer guards its other fields just the same
+					if n, isN := p.Elem().(*types.Named); isN && n.Obj().Pkg() != nil && n.Obj().Pkg().Path() == "sync" && (n.Obj().Name() == "Mutex" || n.Obj().Name() == "RWMutex") {
+						return true
+					}
+				}
+				if holds(ft, depth+1) {
+					return true
+				}
+			}
+		case *types.Array:
+			return holds(u.Elem(), depth+1)
+		}
+		return false
+	}
+	nTypes, nMeth := 0, 0
+	for _, p := range w.Pkgs {
+		if !strings.HasPrefix(p.PkgPath, pkgPrefix) || p.Types == nil {
+			continue
+		}
+		sc := p.Types.Scope()
+		for _, name := range sc.Names() {
+			tn, isTN := sc.Lookup(name).(*types.TypeName)
+			if !isTN || tn.IsAlias() {
+				continue
+			}
+			named, isN := tn.Type().(*types.Named)
+			if !isN {
+				continue
+			}
+			if _, isS := named.Underlying().(*types.Struct); !isS || !holds(named, 0) {
+				continue
+			}
+			nTypes++
+			var bad []string
+			for i := 0; i < named.NumMethods(); i++ {
+				m := named.Method(i)
+				nMeth++
+				sig := m.Type().(*types.Signature)
+				if _, isPtr := sig.Recv().Type().(*types.Pointer); !isPtr {
+					bad = append(bad, m.Name())
+				}
+			}
+			r.Check(len(bad) == 0, rule, "lock-owner/"+shortPkg(p.PkgPath)+"."+name+"/pointer-receivers", tn.Pos(), "%s owns a lock: each of its %d methods has a pointer receiver (a value receiver works on a copy of the guarded fields; value receivers: %v)", name, named.NumMethods(), bad)
+		}
+	}
+	r.Check(nTypes >= 3 && nMeth >= 10, rule, "lock-owner/instances", token.NoPos, "%d lock-holding struct types with %d methods inspected under %s", nTypes, nMeth, pkgPrefix)
+}
+
+func shortPkg(p string) string {
+	if i := strings.LastIndex(p, "/"); i >= 0 {
+		return p[i+1:]
+	}
+	return p
+}
+
+// hrStatefulReceivers: the named types whose methods update fields in place use pointer receivers.
+func hrStatefulReceivers(w *World, r *Report, rule string, pkg string, typeNames ...string) {
+	for _, tn := range typeNames {
+		named := w.Named(pkg, tn)
+		if named == nil {
+			r.Undec(rule, tn, token.NoPos, "type %s.%s not found", pkg, tn)
+			continue
+		}
+		ok, n := true, 0
+		var bad []string
+		for i := 0; i < named.NumMethods(); i++ {
+			m := named.Method(i)
+			n++
+			if _, isPtr := m.Type().(*types.Signature).Recv().Type().(*types.Pointer); !isPtr {
+				ok = false
+				bad = append(bad, m.Name())
+			}
+		}
+		r.Check(ok && n > 0, rule, tn+"/every-method-on-the-shared-instance", named.Obj().Pos(), "all %d methods of %s have pointer receivers (a value receiver updates a copy: %v)", n, tn, bad)
+	}
+}
+
+// hrRetryAfterTypeLiteral: only the two spellings are accepted; each selects its own constant.
+func hrRetryAfterTypeLiteral(w *World, r *Report, rule string) {
+	f := w.Fn("lunar/shared-model/config", "RetryAfterType.UnmarshalYAML")
+	if f == nil {
+		r.Undec(rule, "RetryAfterType.UnmarshalYAML", token.NoPos, "function not found")
+		return
+	}
+	ok, n := true, 0
+	Instrs(f, func(in ssa.Instruction) {
+		st, isSt := in.(*ssa.Store)
+		if !isSt || st.Addr != ssa.Value(f.Params[0]) {
+			return
+		}
+		n++
+		k, isK := constInt(st.Val)
+		found := false
+		for _, rel := range Rels(st.Block()) {
+			if rel.Op != "==" {
+				continue
+			}
+			for _, side := range []ssa.Value{rel.L, rel.R} {
+				c, isC := peel(side).(*ssa.Call)
+				if isC && isCallTo(c, "RetryAfterType).String") {
+					if kk, isKK := constInt(c.Call.Args[0]); isKK && isK && kk == k {
+						found = true
+					}
+				}
+			}
+		}
+		if !found {
+			ok = false
+		}
+	})
+	nErr := 0
+	for _, alt := range ReturnAlts(f, 0) {
+		if !isNilConst(alt.Val) {
+			nErr++
+		}
+	}
+	r.Check(ok && n >= 2 && nErr >= 1, rule, "RetryAfterType.UnmarshalYAML/only-known-spellings", f.Pos(), "each constant is selected only by its own spelling (%d stores) and anything else is an error (%d error returns): a misspelt type must not silently become relative seconds", n, nErr)
+}
+
+// hrEndpointKeyHasMethod: remedies that keep per-endpoint state key it by method and URL.
+func hrEndpointKeyHasMethod(w *World, r *Report, rule string) {
+	n := 0
+	for _, f := range w.lunarFns {
+		if fnPkgPath(f) != pkgRemedies || f.Origin() != nil {
+			continue
+		}
+		Instrs(f, func(in ssa.Instruction) {
+			a, isA := in.(*ssa.Alloc)
+			if !isA || structOf(a.Type()) != "Endpoint" {
+				return
+			}
+			if pk, _ := namedOf(deref(a.Type())); pk != pkgConfig {
+				return
+			}
+			if len(storesTo(a)) > 0 { // a copy of an existing value, not a literal
+				return
+			}
+			m, u := singleFieldStoreByName(a, "Method"), singleFieldStoreByName(a, "URL")
+			if m == nil && u == nil {
+				return
+			}
+			n++
+			ok := m != nil && u != nil && strings.HasSuffix(Path(m), ".Method") && strings.HasSuffix(Path(u), ".NormalizedURL")
+			r.Check(ok, rule, shortFn(fnID(outermost(f)))+"/endpoint-key-is-method-and-url", a.Pos(), "config.Endpoint{Method: <request method>, URL: <normalised url>} (Method=%s URL=%s): state of GET and POST of one URL is kept apart", pathOrNone(m), pathOrNone(u))
+		})
+	}
+	r.Check(n >= 2, rule, "remedies/endpoint-keys", token.NoPos, "%d config.Endpoint literals inspected in the remedies", n)
+}
+
+func pathOrNone(v ssa.Value) string {
+	if v == nil {
+		return "<unset>"
+	}
+	return Path(v)
+}
+
+// singleFieldStoreByName: the one value stored to field name of the struct allocated by a.
+func singleFieldStoreByName(a *ssa.Alloc, name string) ssa.Value {
+	var out ssa.Value
+	n := 0
+	for _, ref := range *a.Referrers() {
+		fa, isFA := ref.(*ssa.FieldAddr)
+		if !isFA || fieldName(fa.X.Type(), fa.Field) != name {
+			continue
+		}
+		for _, r2 := range *fa.Referrers() {
+			if st, isSt := r2.(*ssa.Store); isSt && st.Addr == ssa.Value(fa) {
+				out = st.Val
+				n++
+			}
+		}
+	}
+	if n != 1 {
+		return nil
+	}
+	return out
+}
+
+// hrDiagnosesSelectedByRequest: the diagnoses of a transaction are those of its request's method and URL.
+func hrDiagnosesSelectedByRequest(w *World, r *Report, rule string) {
+	f := w.Fn(pkgRunner, "RunTask")
+	if f == nil {
+		r.Undec(rule, "RunTask", token.NoPos, "function not found")
+		return
+	}
+	cs := CallsIn(f, false, "runner.getDiagnoses")
+	ok := len(cs) == 1
+	if ok {
+		a := cs[0].Common().Args
+		ok = strings.HasSuffix(Path(a[0]), "task.Request.Method") && strings.HasSuffix(Path(a[1]), "task.Request.URL") && Path(a[2]) == "param:policyTree"
+	}
+	r.Check(ok, rule, "RunTask/diagnoses-of-the-request-endpoint", f.Pos(), "getDiagnoses(task.Request.Method, task.Request.URL, policyTree, ...): the endpoint is the one the request was matched to")
+}
+
+// hrLookupDeclaredWalksEveryPart: the exact-pattern lookup gives up at the first part that has no node of its kind.
+func hrLookupDeclaredWalksEveryPart(w *World, r *Report, rule string) {
+	f := w.Fn(pkgURLTree, "URLTree.LookupDeclaredURL")
+	if f == nil {
+		r.Undec(rule, "LookupDeclaredURL", token.NoPos, "function not found")
+		return
+	}
+	hs := loopHeadersOf(f)
+	ok := len(hs) == 1
+	var br []string
+	if ok {
+		br = loopBreaks(hs[0])
+		ok = len(br) == 0
+	}
+	// and the found-return is outside the loop
+	nTrue := 0
+	for _, alt := range ReturnAlts(f, 1) {
+		if b, isB := constBool(alt.Val); isB && b {
+			nTrue++
+			if len(hs) == 1 && loopHas(hs[0], alt.Ret.Block()) {
+				ok = false
+			}
+		}
+	}
+	r.Check(ok && nTrue == 1, rule, "LookupDeclaredURL/missing-part-is-not-found", f.Pos(), "a part without a node of its own kind ends the lookup with not-found; the walk is never cut short into the found-return (breaks: %v)", br)
+}
+
+// hrDumpEndpointVerbatim: the persisted key of an endpoint is its method and URL as aggregated.
+func hrDumpEndpointVerbatim(w *World, r *Report, rule string) {
+	f := w.Fn(pkgDisc, "dumpEndpoint")
+	if f == nil {
+		r.Undec(rule, "dumpEndpoint", token.NoPos, "function not found")
+		return
+	}
+	cs := CallsIn(f, false, "strings.Join")
+	ok := len(cs) == 1
+	if ok {
+		parts := map[int64]string{}
+		var base ssa.Value = cs[0].Common().Args[0]
+		if sl, isSl := base.(*ssa.Slice); isSl {
+			base = sl.X
+		}
+		for _, st := range partStores(base, 2) {
+			if ia, isIA := st.Addr.(*ssa.IndexAddr); isIA {
+				if k, isK := constInt(ia.Index); isK {
+					parts[k] = Path(st.Val)
+				}
+			}
+		}
+		ok = len(parts) == 2 && strings.HasSuffix(parts[0], "endpoint.Method") && strings.HasSuffix(parts[1], "endpoint.URL")
+		if !ok {
+			r.Infof("dumpEndpoint parts: %v", parts)
+		}
+	}
+	r.Check(ok, rule, "dumpEndpoint/method-and-url-verbatim", f.Pos(), "the key joins endpoint.Method and endpoint.URL unchanged (two aggregated endpoints never share a persisted key)")
+}
+
+// hrTreeRebuiltOnlyWhenNewer: the URL tree (and what it learned) is replaced only when the policies file is strictly newer.
+func hrTreeRebuiltOnlyWhenNewer(w *World, r *Report, rule string) {
+	f := w.Fn("lunar/aggregation-plugin", "periodicallyUpdateTree")
+	if f == nil {
+		r.Undec(rule, "periodicallyUpdateTree", token.NoPos, "function not found")
+		return
+	}
+	cs := CallsIn(f, false, "common.BuildTree")
+	ok := len(cs) == 1
+	op := ""
+	if ok {
+		isNew := func(v ssa.Value) bool {
+			p := Path(v)
+			return strings.HasPrefix(p, "(time.Time).UnixMilli(common.GetPoliciesLastModifiedTime()#0")
+		}
+		isCur := func(v ssa.Value) bool {
+			p := Path(v)
+			return strings.HasPrefix(p, "(time.Time).UnixMilli(") && !isNew(v)
+		}
+		op, _ = FindRel(Rels(cs[0].Block()), isNew, isCur)
+		ok = op == ">"
+	}
+	r.Check(ok, rule, "periodicallyUpdateTree/rebuild-only-when-strictly-newer", f.Pos(), "BuildTree runs under newLastModified %q currentLastModified (want >): an untouched policies file keeps the tree and the path parameters it converged", op)
+}
+
+// hrConvergenceKeepsParametricChild: when a node converges, its existing parametric child is merged too.
+func hrConvergenceKeepsParametricChild(w *World, r *Report, rule string) {
+	f := w.Fn(pkgURLTree, "URLTree.insertWithConvergenceIndication")
+	if f == nil {
+		r.Undec(rule, "insertWithConvergenceIndication", token.NoPos, "function not found")
+		return
+	}
+	cs := CallsIn(f, false, "urltree.convergeNodesPaths")
+	ok := len(cs) >= 1
+	for _, c := range cs {
+		// the list is the constant children with the parametric child appended: follow the appends
+		found := false
+		v := c.Common().Args[0]
+		for i := 0; i < 4 && !found; i++ {
+			ap, isC := peel(v).(*ssa.Call)
+			if !isC {
+				break
+			}
+			b, isB := ap.Call.Value.(*ssa.Builtin)
+			if !isB || b.Name() != "append" || len(ap.Call.Args) != 2 {
+				break
+			}
+			var base ssa.Value = ap.Call.Args[1]
+			if sl, isSl := base.(*ssa.Slice); isSl {
+				base = sl.X
+			}
+			for _, st := range partStores(base, 2) {
+				if strings.HasSuffix(Path(st.Val), ".ParametricChild.Child") {
+					found = true
+				}
+			}
+			v = ap.Call.Args[0]
+		}
+		if !found {
+			ok = false
+		}
+	}
+	r.Check(ok, rule, "insertWithConvergenceIndication/converges-the-parametric-child-too", f.Pos(), "the nodes handed to convergeNodesPaths include currentNode.ParametricChild.Child (a declared {param} subtree is not dropped when the node converges)")
+}
+
+// hrGzipWholeBody: the body handed to the obfuscator is the whole decompressed stream.
+func hrGzipWholeBody(w *World, r *Report, rule string) {
+	f := w.Fn("lunar/engine/utils/compression", "DecompressGZip")
+	if f == nil {
+		r.Undec(rule, "DecompressGZip", token.NoPos, "function not found")
+		return
+	}
+	nr := CallsIn(f, false, "gzip.NewReader")
+	ok := len(nr) == 1
+	var other []string
+	if ok {
+		Instrs(f, func(in ssa.Instruction) {
+			c, isC := in.(ssa.CallInstruction)
+			if !isC || c.Common().IsInvoke() {
+				return
+			}
+			id := calleeID(c)
+			if strings.Contains(id, "gzip.Reader)") && !idMatches(id, "gzip.Reader).Close") && !idMatches(id, "gzip.Reader).Read") {
+				other = append(other, calleeShort(id))
+			}
+		})
+		ra := CallsIn(f, false, "io.ReadAll")
+		ok = len(other) == 0 && len(ra) == 1 && Derives(ra[0].Common().Args[0], func(x ssa.Value) bool { return x == nr[0].Value() })
+	}
+	r.Check(ok, rule, "DecompressGZip/reads-the-whole-stream", f.Pos(), "io.ReadAll of the gzip reader as gzip.NewReader returns it (multistream; other reader calls: %v)", other)
+}
+
+// hrContentEncodingFallback: the lower-case fallback looks up the same header name.
+func hrContentEncodingFallback(w *World, r *Report, rule string) {
+	f := w.Fn("lunar/engine/services/diagnoses", "extractContentEncodingValue")
+	if f == nil {
+		r.Undec(rule, "extractContentEncodingValue", token.NoPos, "function not found")
+		return
+	}
+	var keys []ssa.Value
+	Instrs(f, func(in ssa.Instruction) {
+		if lk, isLk := in.(*ssa.Lookup); isLk && Path(lk.X) == "param:headers" {
+			keys = append(keys, lk.Index)
+		}
+	})
+	ok := len(keys) == 2
+	if ok {
+		var exact, lower ssa.Value
+		for _, k := range keys {
+			if c, isC := peel(k).(*ssa.Call); isC && isCallTo(c, "strings.ToLower") {
+				lower = c.Call.Args[0]
+			} else {
+				exact = k
+			}
+		}
+		ok = exact != nil && lower != nil && (exact == lower || Path(exact) == Path(lower))
+	}
+	r.Check(ok, rule, "extractContentEncodingValue/fallback-is-the-same-name-lowered", f.Pos(), "headers[name] then headers[strings.ToLower(name)] for one and the same name (the configured header, when one is configured)")
+}
+
+// hrConstructorKeepsExclusions: the obfuscator is built around the exclusions as configured.
+func hrConstructorKeepsExclusions(w *World, r *Report, rule string) {
+	f := w.Fn("lunar/engine/streams/processors/har-collector", "newAPIStreamObfuscator")
+	if f == nil {
+		r.Undec(rule, "newAPIStreamObfuscator", token.NoPos, "function not found")
+		return
+	}
+	ok, n := true, 0
+	for _, alt := range ReturnAlts(f, 0) {
+		n++
+		v := litField(alt.Val, "obfuscateExclusions")
+		if v == nil || Path(v) != "param:obfuscateExclusions" {
+			ok = false
+		}
+	}
+	Instrs(f, func(in ssa.Instruction) {
+		if st, isSt := in.(*ssa.Store); isSt {
+			if ia, isIA := st.Addr.(*ssa.IndexAddr); isIA && Path(ia.X) == "param:obfuscateExclusions" {
+				ok = false // writes into the caller's configuration
+			}
+		}
+	})
+	r.Check(ok && n == 1, rule, "newAPIStreamObfuscator/exclusions-as-configured", f.Pos(), "obfuscateExclusions is the configured list, unchanged and not written to (exclusion paths are matched case-sensitively)")
+}
+
+// hrFlowContextGetterIsPure: asking a flow for its execution context does not replace the flow context.
+func hrFlowContextGetterIsPure(w *World, r *Report, rule string) {
+	f := w.Fn(pkgFlow, "Flow.GetExecutionContext")
+	if f == nil {
+		r.Undec(rule, "Flow.GetExecutionContext", token.NoPos, "function not found")
+		return
+	}
+	n := len(CallsIn(f, true, "ContextManager).WithFlowContext", "ContextManager).WithGlobalContext", "LunarAdminContextI).SetFlowContext", "LunarAdminContextI).SetGlobalContext"))
+	g := CallsIn(f, false, "ContextManager).GetLunarContext")
+	r.Check(n == 0 && len(g) == 1, rule, "Flow.GetExecutionContext/does-not-replace-the-flow-context", f.Pos(), "the getter returns contextManager.GetLunarContext() and never re-creates the flow context (%d re-creating calls): the retry counter lives there between executions", n)
+}
+
+// hrVersionBumpReturnsPrevious: the version handed to the vacuum is the one that was current before the bump.
+func hrVersionBumpReturnsPrevious(w *World, r *Report, rule string) {
+	f := w.Fn(pkgConfig, "TxnPoliciesAccessor.setNextVersion")
+	if f == nil {
+		r.Undec(rule, "setNextVersion", token.NoPos, "function not found")
+		return
+	}
+	st := fieldStores(f, "currentVersion")
+	vk := CallsIn(f, false, "MapVacuum).VacuumKey")
+	ok := len(st) == 1 && len(vk) == 1
+	if ok {
+		before := func(v ssa.Value) bool {
+			u, isU := peel(v).(*ssa.UnOp)
+			if !isU || u.Op != token.MUL || !strings.HasSuffix(Path(u), ".currentVersion") {
+				return false
+			}
+			return domInstr(u, st[0]) && !domInstr(st[0], u)
+		}
+		ok = before(margs(vk[0])[0])
+		for _, alt := range ReturnAlts(f, 0) {
+			if !before(alt.Val) {
+				ok = false
+			}
+		}
+		b, isB := st[0].Val.(*ssa.BinOp)
+		ok = ok && isB && b.Op == token.ADD && isIntConst(b.Y, 1)
+	}
+	r.Check(ok, rule, "setNextVersion/previous-version-is-read-before-the-bump", f.Pos(), "the version given to the vacuum and returned is currentVersion as read before currentVersion++ (the vacuum must not be told to discard the version just installed)")
+}
+
+// hrVacuumStartOnce: the check-and-set of `active` happens under the entries mutex.
+func hrVacuumStartOnce(w *World, r *Report, la *LockAn, rule string) {
+	n := 0
+	for _, a := range w.fieldAccesses(pkgVacuum, "MapVacuum", []string{"active"}) {
+		if isFreshBase(a.Base) {
+			continue
+		}
+		id := fnID(outermost(a.Fn))
+		if !idMatches(id, "MapVacuum).VacuumKey") {
+			continue
+		}
+		n++
+		_, held := la.HeldAt(a.In)[strings.TrimPrefix(Path(a.Base), "&")+".entriesMutex"]
+		kind := "read"
+		if a.Write {
+			kind = "write"
+		}
+		r.Check(held, rule, "MapVacuum.active/check-and-set-under-entriesMutex/"+kind, posOf(a.In), "VacuumKey %ss active while holding entriesMutex (two first registrations must not both start a background loop)", kind)
+	}
+	r.Check(n >= 2, rule, "MapVacuum.active/instances", token.NoPos, "%d accesses of active in VacuumKey", n)
+}
+
+// hrSnapshotsAlwaysWritten: both snapshots are written on every load.
+func hrSnapshotsAlwaysWritten(w *World, r *Report, rule string) {
+	f := w.Fn(pkgConfig, "persistLoaded")
+	if f == nil {
+		r.Undec(rule, "persistLoaded", token.NoPos, "function not found")
+		return
+	}
+	ws := CallsIn(f, false, "config.WritePoliciesConfig")
+	ok := len(ws) == 2
+	for _, c := range ws {
+		for _, cd := range CondsOf(c.Block()) {
+			rel, isRel := NormCond(cd)
+			if !(isRel && rel.Op == "==" && isNilConst(rel.R) && isErrorType(rel.L.Type())) {
+				ok = false // anything but "the previous step succeeded"
+			}
+		}
+	}
+	r.Check(ok, rule, "persistLoaded/both-snapshots-on-every-load", f.Pos(), "the loaded and the diagnosis-free snapshot are both written whenever the preceding steps succeed, whatever the policies contain (%d writes)", len(ws))
+}
+
+// hrNoSessionSentinel: only the sentinel -1 means "no session yet".
+func hrNoSessionSentinel(w *World, r *Report, rule string) {
+	f := w.Fn(pkgFailsafe, "ParseHAProxyStatsCSV")
+	if f == nil {
+		r.Undec(rule, "ParseHAProxyStatsCSV", token.NoPos, "function not found")
+		return
+	}
+	n, ok := 0, true
+	for _, b := range f.Blocks {
+		iff := blockIf(b)
+		if iff == nil {
+			continue
+		}
+		rel, isRel := NormCond(Cond{V: iff.Cond, Pol: true})
+		if !isRel {
+			continue
+		}
+		ex, isEx := peel(rel.L).(*ssa.Extract)
+		if !isEx || ex.Index != 0 {
+			continue
+		}
+		c, isC := ex.Tuple.(*ssa.Call)
+		if !isC || !isCallTo(c, "strconv.Atoi") {
+			continue
+		}
+		if _, isK := constInt(rel.R); !isK {
+			continue
+		}
+		n++
+		if !((rel.Op == "==" || rel.Op == "!=") && isIntConst(rel.R, -1)) {
+			ok = false
+		}
+	}
+	r.Check(ok && n == 1, rule, "ParseHAProxyStatsCSV/no-session-only-for-the-sentinel", f.Pos(), "lastsess is 'no session' exactly when it equals -1 (%d comparisons of a parsed column with a constant)", n)
+}
+
+// hrRevertUnmanageFlags: which update unmanages stale endpoints at once.
+func hrRevertUnmanageFlags(w *World, r *Report, rule string) {
+	for name, want := range map[string]bool{"RevertToLastLoaded": true, "RevertToDiagnosisFree": true, "ReloadFromFile": false} {
+		f := w.Fn(pkgConfig, "TxnPoliciesAccessor."+name)
+		if f == nil {
+			r.Undec(rule, name, token.NoPos, "function not found")
+			continue
+		}
+		cs := CallsIn(f, false, "TxnPoliciesAccessor).UpdatePoliciesData")
+		ok := len(cs) == 1
+		if ok {
+			b, isB := constBool(margs(cs[0])[1])
+			ok = isB && b == want
+		}
+		r.Check(ok, rule, name+"/unmanage-immediately-flag", f.Pos(), "%s calls UpdatePoliciesData(..., %v): the fail-safe reverts take stale endpoints out of the proxy at once, an ordinary reload after the grace period", name, want)
+	}
+}
